@@ -27,6 +27,8 @@ Decides:
  B builders        wiring table of the combinator API (rules/wiring.py): what each constructor / builder method stores in which field of the parser
                         it returns (many/optional/some/collect: catch=false; switch: present true, absent false; short/long/env: each into its own list;
                         positional: unrestricted; command: the given name is the first long name ..).
+ R registry wiring  run_inner feeds the tokenizer the short names of the parser's OWN raw meta (not the help-normalised one, which drops all but the first
+                        sibling command) - shared with C02.
 Does not decide: that the composition accepts exactly the declared language and attributes values correctly
 for every shape x vector (language equivalence over run-time data)."""
 from core import *
